@@ -49,6 +49,11 @@ CLAIMED = {
         note="Termination and the fixpoint on conforming meshes are observed (time budget per history, exception path), not proved: the loop of refine_mesh is not transcribed and its guard grows with every split; the swap decision (triangle score from cached areas) is checked through the swap guard only.",
         technique="Coq proof over R of hand-written abstract operations + trace-replay correspondence through a guarded hook + conservation/selectivity oracle",
         design="§6 C11"),
+    "C18": dict(
+        text="The three flat readers of parameter_reader.cpp are ONE generic Gallina interpreter (Params.decode) over wiring tables that harness/translate_params.py REGENERATES from the C++ source on every run (Params_gen.v: per get_string_value call the tag, the field assigned, the conversion, the validation rules). Generic theorems, for every well-formed table, every XML section and every text semantics: a read succeeds with record r IFF r holds, per entry and in table order, the conversion of the text of the first child carrying the entry's tag and no rule is violated (so: exact value in the field, sign violations rejected); the result does not depend on the order of the tags in a section; a missing tag and an unconvertible text are rejected; INF in any case maps to infinity; cell types and face types come back in document order. Facts decided by computation over the regenerated tables: translation succeeded, tables well formed, every tag wired to the documented field with the documented conversion (INF exactly for max_inner_pressure and avg_division_volume), every validation rule tests the field its own tag was stored in with the documented sign constraint. The regenerated tables, extracted, are run against the real parameter_reader on generated XML files (all tag orders, every single omission, every single rule violation, unconvertible texts, duplicated tags), field by field and bit for bit; an independent statement of the documented wiring judges the implementation's outputs.",
+        note="Model starts at the element tree (tinyxml2 not modelled); std::stod/std::stoi are arguments computed with the C library's strtod/strtol; read_biomechanical_parameters' two loops are transcribed by hand and tied by the correspondence; the strictness of each sign constraint is the operator the reader uses (the documentation has no table of constraints: damping coefficient and strengths reject negative values and accept zero although one message says 'strictly positive'); cell_type_parameters::initial_pressure_ has no tag (reported by the translator, outside the property: it ranges over the parameters the file has); 'the values govern the run they are named after' is carried by C03/C04/C11 taking these fields as their parameters, not re-proved here.",
+        technique="Coq proof of a generic interpreter + model tables regenerated from the C++ source by a translator on every run (finite facts by vm_compute) + bit-exact differential correspondence of the regenerated tables with the real reader + documented-wiring oracle",
+        design="§6 C18"),
 }
 
 PENDING_REASON = "not claimed yet: model, theorems and correspondence for this property are still being built (see DESIGN.md §9 staging); nothing is asserted about it"
